@@ -55,3 +55,17 @@ MUTANTS += [
     ("M28", V, "                if len(members) == 1:\n                    continue", "                if len(members) <= 1 or len(members) == 2:\n                    continue", ["C06"], "isolates(ignore_singletons) also ignores pairs"),
     ("M29", "xgi/stats/dinodestats.py", "        return {n: len(net._node[n][\"in\"]) for n in bunch}", "        return {n: len(net._node[n][\"out\"]) for n in bunch}", ["C06", "C02"], "in_degree counts out-memberships"),
 ]
+
+HON = "xgi/convert/higher_order_network.py"
+MUTANTS += [
+    ("M30", H, "        cp.add_nodes_from((n, deepcopy(attr)) for n, attr in nn.items())\n        ee = self.edges\n        cp.add_edges_from(\n            (e, idx, deepcopy(self.edges[idx]))",
+     "        cp.add_nodes_from((n, attr) for n, attr in nn.items())\n        ee = self.edges\n        cp.add_edges_from(\n            (e, idx, self.edges[idx])", ["C07"], "Hypergraph.copy() without deepcopy of attribute values"),
+    ("M31", H, "        cp._edge_uid = copy(self._edge_uid)\n\n        return cp\n\n    def dual", "        cp._edge_uid = self._edge_uid\n\n        return cp\n\n    def dual", ["C07"], "copy shares the ID counter object"),
+    ("M32", H, "            \"_node_attr\": self._node_attr,\n            \"_edge\": self._edge,", "            \"_node_attr\": self._node_attr.__class__((k, {}) for k in self._node_attr),\n            \"_edge\": self._edge,", ["C07"], "__getstate__ drops node attribute values"),
+    ("M33", V, "                return {key: self._id_dict[key].copy() for key in self}\n            elif dtype is list:\n                return [self._id_dict[key].copy() for key in self]\n            else:\n                raise XGIError(f\"Unrecognized dtype {dtype}\")\n\n        if e not in self:\n            raise IDNotFound(f'ID \"{e}\" not in this view')\n\n        return self._id_dict[e].copy()\n\n    def singletons",
+     "                return {key: self._id_dict[key] for key in self}\n            elif dtype is list:\n                return [self._id_dict[key].copy() for key in self]\n            else:\n                raise XGIError(f\"Unrecognized dtype {dtype}\")\n\n        if e not in self:\n            raise IDNotFound(f'ID \"{e}\" not in this view')\n\n        return self._id_dict[e].copy()\n\n    def singletons",
+     ["C07", "C08"], "members(dtype=dict) hands out the internal sets (copy shares member sets)"),
+    ("M34", HON, "        H.add_edges_from((ee.members(e), e, deepcopy(attr)) for e, attr in ee.items())\n        H._net_attr = deepcopy(data._net_attr)\n        return H\n\n    elif isinstance(data, DiHypergraph):",
+     "        H.add_edges_from((ee.members(e), e, deepcopy(attr)) for e, attr in ee.items())\n        H._net_attr = data._net_attr\n        return H\n\n    elif isinstance(data, DiHypergraph):", ["C07"], "Hypergraph(H) shares the network attribute dict"),
+    ("M35", D, "        cp._net_attr = deepcopy(self._net_attr)\n\n        cp._edge_uid = copy(self._edge_uid)\n\n        return cp\n\n    def cleanup", "        cp._net_attr = dict(self._net_attr)\n\n        cp._edge_uid = copy(self._edge_uid)\n\n        return cp\n\n    def cleanup", ["C07"], "DiHypergraph.copy() shallow-copies network attributes"),
+]
